@@ -5,6 +5,7 @@ import (
 	"encoding/json"
 	"errors"
 	"fmt"
+	"math"
 	"strconv"
 	"strings"
 	"testing"
@@ -661,7 +662,7 @@ func TestCheck(t *testing.T) {
 	})
 
 	r.Phase(fmt.Sprintf("W: %d conventional special texts (null, nil, the nil UUID, braces, every prefix of urn:uuid:, ...) x 4 rule sets x limits", len(ref.ConventionalTexts)), func() {
-		for _, lim := range []int{0, -1, 3} {
+		for _, lim := range []int{0, -1, 3, math.MaxInt, math.MaxInt - 1, 1 << 31, 1 << 32} {
 			restore := setLimit(lim)
 			r.Serial(func(w *vkit.W) {
 				for _, text := range ref.ConventionalTexts {
